@@ -91,3 +91,74 @@ Print Assumptions C01_nonvacuous.
 Theorem C01_monitor_flags_violation : first_bad ex_honest_b ex_qdec ex_bad_trace = Some 4.
 Proof. exact ex_bad_flagged. Qed.
 Print Assumptions C01_monitor_flags_violation.
+
+(* ------------------------------------------------------------------------------------------
+   Layer 2 = runtime refinement checking (model/C01Check.v): the check records ONE global trace
+   per run of N real agreement state machines and evaluates ConcreteBA.first_bad on it with the
+   stake-weight quorum predicate.  The theorems below tie that executable verdict to layer 1. *)
+From Verif.lib Require Import Term.
+From Verif.model Require Import C01Check.
+From Verif.proofs Require Import C01CheckProofs.
+
+(* the quorum-intersection hypotheses are DECIDED for the weights of a case (enumeration of the
+   splits of the honest set): every two duplicate-free voter lists reaching the thresholds share
+   an honest node *)
+Theorem C01_qi_decided :
+  forall (ths honest byz : list N) (tbl : wtable),
+    qi_b ths honest byz tbl = true ->
+    let quorum := quorum_weights (weight_of (honest ++ byz) tbl) (step_threshold ths) in
+    (forall p s Q1 Q2, quorum p s Q1 -> quorum p s Q2 ->
+                       exists n, honest_b honest n = true /\ Q1 n /\ Q2 n) /\
+    (forall (p p' s : nat) Qc Qn, (p <= p')%nat -> (3 <= s)%nat -> quorum p 2%nat Qc -> quorum p' s Qn ->
+                       exists n, honest_b honest n = true /\ Qc n /\ Qn n).
+Proof. exact (fun ths honest byz tbl H => conj (qi_same_holds ths honest byz tbl H) (qi_cross_holds ths honest byz tbl H)). Qed.
+Print Assumptions C01_qi_decided.
+
+(* a trace accepted by the checker, whose committee weights satisfy the decided intersection
+   hypotheses, is a reachable trace of the abstract protocol and has no conflicting cert quorums
+   (corollary of C01_monitor_sound and C01_ba_safety) *)
+Theorem C01_checked_trace_safe :
+  forall (ths honest byz : list N) (tbl : wtable),
+    qi_b ths honest byz tbl = true ->
+    forall t, first_bad (honest_b honest) (qdec ths honest byz tbl) t = None ->
+    let quorum := quorum_weights (weight_of (honest ++ byz) tbl) (step_threshold ths) in
+    reachable N N N.eq_dec N.eq_dec (fun n => honest_b honest n = true) quorum t /\
+    forall p v p' v', has_q N N quorum t p 2%nat (Some v) -> has_q N N quorum t p' 2%nat (Some v') -> v = v'.
+Proof. exact checked_trace_safe. Qed.
+Print Assumptions C01_checked_trace_safe.
+
+(* the executable safety monitor of the check means what it should ... *)
+Theorem C01_certs_agree_b_iff :
+  forall (ths honest byz : list N) (tbl : wtable),
+    qi_b ths honest byz tbl = true ->
+    forall t, certs_agree_b ths honest byz tbl t = true <->
+      (forall p x p' y, has_q_b (qdec ths honest byz tbl) t p 2%nat (Some x) = true ->
+                        has_q_b (qdec ths honest byz tbl) t p' 2%nat (Some y) = true -> x = y).
+Proof. exact certs_agree_b_iff. Qed.
+Print Assumptions C01_certs_agree_b_iff.
+
+(* ... and it can only fail on a trace that the rule checker rejects: whenever the real machines
+   stay inside the abstract rules, no two cert quorums of the recorded run differ *)
+Theorem C01_checked_trace_certs_agree :
+  forall (ths honest byz : list N) (tbl : wtable),
+    qi_b ths honest byz tbl = true ->
+    forall t, first_bad (honest_b honest) (qdec ths honest byz tbl) t = None ->
+              certs_agree_b ths honest byz tbl t = true.
+Proof. exact checked_trace_certs_agree. Qed.
+Print Assumptions C01_checked_trace_certs_agree.
+
+(* anti-vacuity for layer 2: real thresholds, five senders with 20 % each: the intersection test
+   holds with one Byzantine sender and fails with three; a two-period run (period 0 skipped on a
+   next quorum for bottom formed with the Byzantine sender's help, value 7 certified in period 1)
+   is accepted, and a cert-voter that next-votes bottom is flagged *)
+Theorem C01_layer2_nonvacuous :
+  qi_b ex_ths [1;2;3;4]%N [5]%N ex_tbl = true /\
+  qi_b ex_ths [1;2]%N [3;4;5]%N ex_tbl = false /\
+  first_bad (honest_b [1;2;3;4]%N) (qdec ex_ths [1;2;3;4]%N [5]%N ex_tbl) ex_run = None /\
+  has_q_b (qdec ex_ths [1;2;3;4]%N [5]%N ex_tbl) ex_run 1%nat 2%nat (Some 7%N) = true /\
+  first_bad (honest_b [1;2;3;4]%N) (qdec ex_ths [1;2;3;4]%N [5]%N ex_tbl) ex_run_bad = Some 6%nat.
+Proof.
+  exact (conj ex_qi_holds (conj ex_qi_fails_over_bound
+          (conj (proj1 ex_run_accepted) (conj (proj1 (proj2 ex_run_accepted)) ex_run_bad_flagged)))).
+Qed.
+Print Assumptions C01_layer2_nonvacuous.
